@@ -74,7 +74,7 @@ fn ref_valid_filter(f: &str) -> bool {
 }
 
 /// Defined for valid topics and valid filters only.
-fn ref_matches(topic: &str, filter: &str) -> bool {
+pub fn ref_matches(topic: &str, filter: &str) -> bool {
     if topic.starts_with('$') {
         return false;
     }
